@@ -284,7 +284,7 @@ class Fn:
                         out.append(self._with_proj(root, proj))
                 elif k == "cast":
                     for root in self.trace(rv["op"], depth + 1, transparent, seen):
-                        out.append(self._with_proj(root, proj + ["as:" + rv["ty"]] if rv["kind"] not in ("PointerCoercion", "Transmute", "PtrToPtr") else proj))
+                        out.append(self._with_proj(root, proj + ["as:" + rv["ty"] + ":" + rv["kind"]] if rv["kind"] not in ("PointerCoercion", "Transmute", "PtrToPtr") else proj))
                 elif k == "agg":
                     # projecting a field out of an aggregate we just built: follow that operand
                     if proj and rv["kind"] in ("tuple", "adt") and proj[0].isdigit() and int(proj[0]) < len(rv["ops"]):
@@ -556,3 +556,64 @@ def variant_regions(fn, enum_path, root_param=None):
 def region_of(regions, block):
     """variant names whose region contains block"""
     return sorted(n for n, r in regions.items() if block in r)
+
+
+def guard_liveness(fn, guard_kind):
+    """Forward may-analysis of RAII guards. guard_kind(callee, argtys, dest_ty) -> 'shared' | 'mut' | None for a call that
+    creates a guard in its destination local. Returns {block: set of (local, kind, def_block) live at the block's terminator}.
+    A guard dies at Drop(local), StorageDead(local), or when it is moved into a call (mem::drop). References to a guard
+    (`let g = &heap.borrow()`) keep the temporary alive: the temporary's own storage decides."""
+    gen = {}
+    for b in range(fn.n):
+        t = fn.term(b)
+        if t["k"] == "call" and not fn.blocks[b].get("cleanup"):
+            d, r = fn_of(t)
+            if d is None:
+                continue
+            dest = t["dest"]
+            if dest["p"]:
+                continue
+            k = guard_kind(r, t["argtys"], fn.f["locals"][dest["l"]]["ty"])
+            if k:
+                gen[b] = (dest["l"], k, b)
+    # live-out of a call block b (on its normal edge) includes gen[b]
+    IN = {b: set() for b in range(fn.n)}
+    order = fn.rpo()
+    changed = True
+
+    def transfer_stmts(b, live):
+        live = set(live)
+        for s in fn.stmts(b):
+            if s["k"] == "dead":
+                live = {g for g in live if g[0] != s["l"]}
+            elif s["k"] == "assign" and s["rv"]["k"] == "use" and "move" in s["rv"]["op"]:
+                # moving a guard into another local: follow it
+                src = s["rv"]["op"]["move"]
+                if not src["p"] and not s["lhs"]["p"]:
+                    moved = {g for g in live if g[0] == src["l"]}
+                    if moved:
+                        live = {g for g in live if g[0] != src["l"]} | {(s["lhs"]["l"], g[1], g[2]) for g in moved}
+        return live
+
+    OUT_AT_TERM = {}
+    while changed:
+        changed = False
+        for b in order:
+            live = transfer_stmts(b, IN[b])
+            OUT_AT_TERM[b] = live
+            t = fn.term(b)
+            out = set(live)
+            if t["k"] == "drop" and not t["place"]["p"]:
+                out = {g for g in out if g[0] != t["place"]["l"]}
+            if t["k"] == "call":
+                # guards moved into the call are consumed (drop(guard))
+                for a in t["args"]:
+                    if "move" in a and not a["move"]["p"]:
+                        out = {g for g in out if g[0] != a["move"]["l"]}
+                if b in gen:
+                    out = out | {gen[b]}
+            for s in fn.succ(b):
+                if not out <= IN[s]:
+                    IN[s] |= out
+                    changed = True
+    return OUT_AT_TERM, gen
